@@ -1,6 +1,6 @@
 #!/bin/bash
 # rerun_seeds_par.sh <workers> <seed id> ...: rerun banked seeded changes in parallel. Each worker has its own copy of /verif (the Lean build directory is
-# per copy) and its own clone of /repo, both under /tmp and removed at the end; the meta.json files come back to /verif/seeded.
+# per copy) and its own clone of /repo, both under /tmp and removed at the end; the meta.json files of the seeds a worker ran come back to /verif/seeded.
 set -u
 W=$1; shift
 ids=("$@")
@@ -10,12 +10,12 @@ for k in $(seq 0 $((W-1))); do
   rsync -a --exclude replays --exclude .git "$root/" /tmp/sw$k/verif/
   git clone -q /repo /tmp/sw$k/repo
   mine=(); for i in "${!ids[@]}"; do [ $((i % W)) -eq $k ] && mine+=("${ids[$i]}"); done
-  ( cd /tmp/sw$k/verif && git init -q . 2>/dev/null; git add -A evidence >/dev/null 2>&1; git -c user.email=a@b -c user.name=w commit -qm e >/dev/null 2>&1; \
-    VERIF_REPO=/tmp/sw$k/repo python3 tools/rerun_seeds.py "${mine[@]}" > /tmp/sw$k/log 2>&1 ) &
+  printf '%s\n' "${mine[@]}" > /tmp/sw$k/mine
+  ( cd /tmp/sw$k/verif && VERIF_REPO=/tmp/sw$k/repo python3 tools/rerun_seeds.py "${mine[@]}" > /tmp/sw$k/log 2>&1 ) &
 done
 wait
 for k in $(seq 0 $((W-1))); do
   cat /tmp/sw$k/log
-  for d in /tmp/sw$k/verif/seeded/*/; do cp "$d/meta.json" "$root/seeded/$(basename $d)/meta.json"; done
+  while read -r id; do [ -n "$id" ] && cp "/tmp/sw$k/verif/seeded/$id/meta.json" "$root/seeded/$id/meta.json"; done < /tmp/sw$k/mine
   rm -rf /tmp/sw$k
 done
